@@ -328,6 +328,10 @@ class HistogramFillerBase:
                     if q[1] == q[0]:
                         # in case of highly imbalanced data it can happen that q05=q95. If so use min and max instead.
                         q = (self.get_quantiles(df, quantiles=[0.0, 1.0], columns=[c]))[c]
+                    if not (np.isfinite(q[0]) and np.isfinite(q[1])):
+                        # no finite values to derive a range from (e.g. an all-NaN column): use a fixed finite range,
+                        # so that the bin specifications are valid and identical for every such dataframe
+                        q = (0.0, 0.0)
                     qdiff = (q[1] - q[0]) * (1.0 / 0.9) if q[1] > q[0] else 1.0
                     bin_width = qdiff / float(n_bins)
                     bin_offset = q[0] - qdiff * 0.05
